@@ -116,13 +116,10 @@ def shram_work_ranges(it, acc):
     out = [(0, 2 * BANK)]
     bits = it.ifm.bits
     if it.kind == "ELEMENTWISE":
-        gran = hw["gran"][GR_IFM32 if bits == 32 else (GR_IFM8_EW if bits == 8 else GR_IFM16_EW)]
-        ifm_bytes = it.bh * it.bw * _round_up(it.bc * bits // 8, 8)
-        ifm_banks = _round_up(-(-ifm_bytes // 1024) * 2, gran)
-        out.append((2 * BANK, (2 + ifm_banks) * BANK))
-        binary = it.ifm2 is not None and not (it.bcast & 0x80)
-        if binary:
-            out.append((it.ib_start2 * BANK, (it.ib_start2 + ifm_banks) * BANK))
+        # the operand buffers own the banks the operation declares for them: [2, IFM_IB_END) (IFM2 from IFM2_IB_START inside that
+        # range).  An earlier version counted only the banks one double-buffered block needs; the registers, not the block size,
+        # are what tells the hardware how far it may stream operands ahead (and what the compiler itself assumes)
+        out.append((2 * BANK, max(2, it.ib_end) * BANK))
     else:
         out.append((2 * BANK, max(2, it.ib_end) * BANK))
         out.append((it.ab_start * BANK, (it.ab_start + acc_banks(it, acc)) * BANK))
